@@ -9,7 +9,7 @@ hypotheses that bound *executed product buffers*: `Hp` (the product of the colum
 `rank` gadget products `expandProd` of the row expansion).  This file
 
 1. adds the missing in-place form **`ggsw_automorphism_assign_decrypts`** (`Ks.ggswAutomorphismAssign`);
-2. derives both product bounds from operand digit bounds — `expandProd_bound` (`product_bound'` on the product that `ggsw_expand_row`
+2. derives both product bounds from operand digit bounds — `expandProd_bound` (`product_bound` on the product that `ggsw_expand_row`
    executes: mask digits `≤ Da`, tensor-key digits `≤ Dt` ⇒ every coefficient `≤ dsize·(rank·dnum)·N·Da·Dt`), `expandOk_of_digit_bounds`
    (`Core.ExpandOk` from digit bounds and ONE decidable inequality), `keyswitch_expandProd_bound` / `automorphism_expandProd_bound` (the
    mask of the expansion is the key-switched cell, digits `≤ 2^b − 1`), `KsRowOk_of_adm` (`prodOf_conv_bound`);
@@ -19,7 +19,7 @@ hypotheses that bound *executed product buffers*: `Hp` (the product of the colum
    `expandAdmissible big128 t N (2^b) Dt (2^b)` (expansion), with `Dm` / `Dt` bounds on the stored digits of the two keys;
 4. `decide` instances of `expandAdmissible` on the crate's shapes.
 
-`hm` / `hmT` (bounds on the key entries) follow from bounds on the stored digits: `entry_normInf'`, `tensorKey_entry_normInf`.
+`hm` / `hmT` (bounds on the key entries) follow from bounds on the stored digits: `entry_normInf`, `tensorKey_entry_normInf`.
 
 Not covered: the mask digits of the expansion are bounded by `2^b` (what `norm_stage` / `keyswitch_digits` deliver: `≤ 2^b − 1`), not by the
 balanced bound `2^(b−1)` — a factor 2 in `expandAdmissible`, immaterial on the crate's shapes; the cross-radix branch of `ggsw_expand_row` and
@@ -138,19 +138,19 @@ theorem ggsw_automorphism_assign_decrypts (N : Nat) (big128 : Bool) (x0 : Ks.Ct)
 /-! ### 2. the products of the row expansion, bounded from digit bounds -/
 
 /-- **`expandProd_bound`** — the digit bound of the executed product of the row expansion (`gglwe_product_dft(res_dft = 0, a_dft, tsk.at(c))`,
-every column, every limb), from `product_bound'`: mask digits `≤ Da`, digits of the tensor key `t.at c` `≤ Dt` ⇒ every coefficient is
-`≤ prodBound' = dsize·(rank·dnum)·N·Da·Dt`.  Every `dsize ≥ 1`, every rank. -/
+every column, every limb), from `product_bound`: mask digits `≤ Da`, digits of the tensor key `t.at c` `≤ Dt` ⇒ every coefficient is
+`≤ prodBound = dsize·(rank·dnum)·N·Da·Dt`.  Every `dsize ≥ 1`, every rank. -/
 theorem expandProd_bound (N : Nat) (aDft : List Col) (t : ToGGSWKey) (c : Nat) (Da Dt : Int) (hDa : 0 ≤ Da) (hDt : 0 ≤ Dt)
-    (hd : 1 ≤ t.dsize) (hn : t.n = N) (ha : ∀ col ∈ aDft, ∀ p ∈ col, PB' N Da p)
+    (hd : 1 ≤ t.dsize) (hn : t.n = N) (ha : ∀ col ∈ aDft, ∀ p ∈ col, PB N Da p)
     (hm : ∀ j q, normInf ((t.at c).toPMat.entry j q) ≤ Dt) :
-    ∀ col ∈ expandProd N aDft t c, ∀ l ∈ col, ∀ x ∈ l, |x| ≤ prodBound' t.dsize t.rank t.dnum N Da Dt := by
+    ∀ col ∈ expandProd N aDft t c, ∀ l ∈ col, ∀ x ∈ l, |x| ≤ prodBound t.dsize t.rank t.dnum N Da Dt := by
   subst hn
   intro col hcol l hl x hx
   unfold expandProd Core.gglweProductDft at hcol
   obtain ⟨i, hi, rfl⟩ := List.mem_map.mp hcol
   have s0 := (Core.mkBuf_shape (t.at c).n (t.at c).colsOut t.size (zeroCols t.n (t.rank + 1) t.size)
     (Core.shapeOk_zeroCols _ _ _)).1
-  have hb := product_bound' t.n _ (Core.mkBuf (t.at c).n (t.at c).colsIn (aDft.getD 0 []).length aDft) (t.at c).toKey Da Dt hDa hDt hd
+  have hb := product_bound t.n _ (Core.mkBuf (t.at c).n (t.at c).colsIn (aDft.getD 0 []).length aDft) (t.at c).toKey Da Dt hDa hDt hd
     s0.1 rfl rfl rfl rfl rfl ha hm i (List.mem_range.mp hi) l hl
   exact (abs_le_normInf hx).trans hb
 
@@ -158,13 +158,13 @@ theorem expandProd_bound (N : Nat) (aDft : List Col) (t : ToGGSWKey) (c : Nat) (
 product plus the body leaves the head-room of `vec_znx_big_normalize`: `dsize·(rank·dnum)·N·Da·Dt + Ha + 8 ≤ 2^62` (FFT64) resp. `2^126`
 (NTT120). -/
 def expandAdmissible (big128 : Bool) (t : ToGGSWKey) (N : Nat) (Da Dt Ha : Int) : Prop :=
-  prodAdmissible' (bitsOf big128) t.dsize t.rank t.dnum N Da Dt Ha
+  prodAdmissible (bitsOf big128) t.dsize t.rank t.dnum N Da Dt Ha
 
 instance (big128 : Bool) (t : ToGGSWKey) (N : Nat) (Da Dt Ha : Int) : Decidable (expandAdmissible big128 t N Da Dt Ha) := by
   unfold expandAdmissible; infer_instance
 
 theorem expandAdmissible_iff (big128 : Bool) (t : ToGGSWKey) (N : Nat) (Da Dt Ha : Int) :
-    expandAdmissible big128 t N Da Dt Ha ↔ prodBound' t.dsize t.rank t.dnum N Da Dt + Ha + 8 ≤ 2 ^ (bitsOf big128 - 2) := Iff.rfl
+    expandAdmissible big128 t N Da Dt Ha ↔ prodBound t.dsize t.rank t.dnum N Da Dt + Ha + 8 ≤ 2 ^ (bitsOf big128 - 2) := Iff.rfl
 
 /-- **`expandOk_of_digit_bounds`** — `Core.ExpandOk` (shape of the product, shape of the body, no wrap of the body addition) from digit
 bounds of the OPERANDS (mask `≤ Da`, tensor key `≤ Dt`, body `≤ Ha`) and the decidable inequality `expandAdmissible`; both accumulator
@@ -172,7 +172,7 @@ widths. -/
 theorem expandOk_of_digit_bounds (N : Nat) (big128 : Bool) (a0 : Col) (aDft : List Col) (t : ToGGSWKey) (c : Nat) (Da Dt Ha : Int)
     (hDa : 0 ≤ Da) (hDt : 0 ≤ Dt) (hd : 1 ≤ t.dsize) (hn : t.n = N) (hM : ∀ j q, ((t.at c).toPMat.entry j q).length = N) (hc : c < t.rank)
     (ha0 : LimbsN N a0) (hadm : expandAdmissible big128 t N Da Dt Ha)
-    (ha : ∀ col ∈ aDft, ∀ p ∈ col, PB' N Da p) (hm : ∀ j q, normInf ((t.at c).toPMat.entry j q) ≤ Dt)
+    (ha : ∀ col ∈ aDft, ∀ p ∈ col, PB N Da p) (hm : ∀ j q, normInf ((t.at c).toPMat.entry j q) ≤ Dt)
     (hbody : ∀ l ∈ a0, ∀ x ∈ l, |x| ≤ Ha) : ExpandOk N big128 a0 aDft t c := by
   have hP := expandProd_bound N aDft t c Da Dt hDa hDt hd hn ha hm
   have hlen := expandProd_length N aDft t c
@@ -180,15 +180,15 @@ theorem expandOk_of_digit_bounds (N : Nat) (big128 : Bool) (a0 : Col) (aDft : Li
   have hmem : (expandProd N aDft t c).getD (c + 1) [] ∈ expandProd N aDft t c := by
     rw [List.getD_eq_getElem?_getD, List.getElem?_eq_getElem hc1]
     exact List.getElem_mem hc1
-  have hH : prodBound' t.dsize t.rank t.dnum N Da Dt + Ha < 2 ^ (bitsOf big128 - 1) := by
+  have hH : prodBound t.dsize t.rank t.dnum N Da Dt + Ha < 2 ^ (bitsOf big128 - 1) := by
     have h1 := (expandAdmissible_iff big128 t N Da Dt Ha).mp hadm
     have h2 : (2 : Int) ^ (bitsOf big128 - 2) ≤ 2 ^ (bitsOf big128 - 1) := pow_le_pow_right₀ (by norm_num) (by omega)
     linarith
   exact expandOk_of_bounds N big128 a0 aDft t c _ Ha hd hn hM hc ha0 hH (hP _ hmem) hbody
 
 /-- the mask columns that the expansion multiplies are columns of the column-0 cell: same length, same digit bound -/
-theorem maskOf_PB' (N : Nat) (t : ToGGSWKey) (y : Ks.Ct) (Da : Int) (hy : GWF N y)
-    (hdig : ∀ c ∈ y.cols, ∀ l ∈ c, ∀ x ∈ l, |x| ≤ Da) : ∀ col ∈ maskOf t y, ∀ p ∈ col, PB' N Da p := by
+theorem maskOf_PB (N : Nat) (t : ToGGSWKey) (y : Ks.Ct) (Da : Int) (hy : GWF N y)
+    (hdig : ∀ c ∈ y.cols, ∀ l ∈ c, ∀ x ∈ l, |x| ≤ Da) : ∀ col ∈ maskOf t y, ∀ p ∈ col, PB N Da p := by
   intro col hcol p hp
   unfold maskOf at hcol
   obtain ⟨i, _, rfl⟩ := List.mem_map.mp hcol
@@ -205,18 +205,18 @@ theorem expandProd_mask_bound (N : Nat) (t : ToGGSWKey) (y : Ks.Ct) (Dt : Int) (
     (hy : GWF N y) (hdig : ∀ c ∈ y.cols, ∀ l ∈ c, ∀ x ∈ l, |x| ≤ 2 ^ t.base2k - 1)
     (hmT : ∀ c, c < t.rank → ∀ j q, normInf ((t.at c).toPMat.entry j q) ≤ Dt) :
     ∀ c, c < t.rank → ∀ col ∈ expandProd N (maskOf t y) t c, ∀ l ∈ col, ∀ v ∈ l,
-      |v| ≤ prodBound' t.dsize t.rank t.dnum N (2 ^ t.base2k) Dt := by
+      |v| ≤ prodBound t.dsize t.rank t.dnum N (2 ^ t.base2k) Dt := by
   intro c hc
   have hp2 : (0 : Int) ≤ 2 ^ t.base2k := by positivity
   exact expandProd_bound N (maskOf t y) t c (2 ^ t.base2k) Dt hp2 hDt hd hn
-    (maskOf_PB' N t y _ hy (fun c hc l hl x hx => by have := hdig c hc l hl x hx; linarith)) (hmT c hc)
+    (maskOf_PB N t y _ hy (fun c hc l hl x hx => by have := hdig c hc l hl x hx; linarith)) (hmT c hc)
 
-/-- a bound on the stored digits of the tensor key gives the hypothesis `hmT` of the `_adm` theorems (`entry_normInf'`) -/
+/-- a bound on the stored digits of the tensor key gives the hypothesis `hmT` of the `_adm` theorems (`entry_normInf`) -/
 theorem tensorKey_entry_normInf (t : ToGGSWKey) (Dt : Int) (hDt : 0 ≤ Dt)
     (h : ∀ k ∈ t.keys, ∀ row ∈ k, ∀ c ∈ row, ∀ l ∈ c, ∀ x ∈ l, |x| ≤ Dt) :
     ∀ c, c < t.rank → ∀ j q, normInf ((t.at c).toPMat.entry j q) ≤ Dt := by
   intro c _ j q
-  apply entry_normInf' _ Dt hDt
+  apply entry_normInf _ Dt hDt
   intro row hrow
   have hd : (t.at c).toPMat.data = t.keys.getD c [] := rfl
   rw [hd, List.getD_eq_getElem?_getD] at hrow
@@ -231,11 +231,11 @@ def KsRowAdm (N : Nat) (key : Ks.Key) (Hin : Int) (x : Ks.Ct) : Prop :=
   GWF N x ∧ x.rank = key.rankIn ∧ 1 ≤ x.base2k ∧ x.base2k ≤ 62 ∧ (∀ c ∈ x.cols, ∀ l ∈ c, ∀ v ∈ l, |v| ≤ Hin) ∧
     convSize x key ≤ key.mat.size ∧ convSize x key ≤ key.mat.rows * key.dsize
 
-/-- **`KsRowOk_of_adm`** — `KsRowOk` with `Hp := prodBound' …` from key digits `≤ Dm` (`prodOf_conv_bound`) -/
+/-- **`KsRowOk_of_adm`** — `KsRowOk` with `Hp := prodBound …` from key digits `≤ Dm` (`prodOf_conv_bound`) -/
 theorem KsRowOk_of_adm (N rout : Nat) (key : Ks.Key) (Hin Dm : Int) (x : Ks.Ct) (hrout : rout + 1 = key.mat.colsOut)
     (hD : 1 ≤ key.dsize) (hbk1 : 1 ≤ key.base2k) (hbk : key.base2k ≤ 62) (hIn0 : 0 ≤ Hin) (hIn : Hin + 8 ≤ 2 ^ 62)
     (hDm0 : 0 ≤ Dm) (hm : ∀ j q, normInf (key.mat.entry j q) ≤ Dm) (h : KsRowAdm N key Hin x) :
-    KsRowOk N rout key Hin (prodBound' key.dsize key.mat.colsIn key.mat.rows N (Hin + 2 ^ key.base2k) Dm) x := by
+    KsRowOk N rout key Hin (prodBound key.dsize key.mat.colsIn key.mat.rows N (Hin + 2 ^ key.base2k) Dm) x := by
   obtain ⟨gx, hxr, hx1, hx62, hxB, hxc1, hxc2⟩ := h
   exact ⟨gx, hxr, hx1, hx62, hxB, prodOf_conv_bound N rout x key Hin Dm gx hrout hD hx1 hx62 hbk1 hbk hIn0 hIn hxB hDm0 hm, hxc1, hxc2⟩
 
@@ -255,7 +255,7 @@ theorem keyswitch_expandProd_bound (big128 : Bool) (N bout sout rout : Nat) (x :
     (hDt0 : 0 ≤ Dt) (hmT : ∀ c, c < t.rank → ∀ j q, normInf ((t.at c).toPMat.entry j q) ≤ Dt)
     (hrow : KsRowOk N rout key Hin Hp x) (hy : Ks.keyswitch big128 bout sout rout x key = .ok y) :
     ∀ c, c < t.rank → ∀ col ∈ expandProd N (maskOf t y) t c, ∀ l ∈ col, ∀ v ∈ l,
-      |v| ≤ prodBound' t.dsize t.rank t.dnum N (2 ^ t.base2k) Dt := by
+      |v| ≤ prodBound t.dsize t.rank t.dnum N (2 ^ t.base2k) Dt := by
   subst hbo
   obtain ⟨gx, hxr, hx1, hx62, hxB, hxP, hxc1, hxc2⟩ := hrow
   obtain ⟨res, _, hok, _, gwR, _⟩ :=
@@ -286,7 +286,7 @@ theorem automorphism_expandProd_bound (big128 : Bool) (N bout sout rout : Nat) (
     (hDt0 : 0 ≤ Dt) (hmT : ∀ c, c < t.rank → ∀ j q, normInf ((t.at c).toPMat.entry j q) ≤ Dt)
     (hrow : KsRowOk N rout key Hin Hp x) (hy : Ks.automorphism big128 bout sout rout x key = .ok y) :
     ∀ c, c < t.rank → ∀ col ∈ expandProd N (maskOf t y) t c, ∀ l ∈ col, ∀ v ∈ l,
-      |v| ≤ prodBound' t.dsize t.rank t.dnum N (2 ^ t.base2k) Dt := by
+      |v| ≤ prodBound t.dsize t.rank t.dnum N (2 ^ t.base2k) Dt := by
   subst hbo
   obtain ⟨gx, hxr, hx1, hx62, hxB, hxP, hxc1, hxc2⟩ := hrow
   obtain ⟨res, _, hok, _, gwR, _⟩ :=
@@ -365,10 +365,10 @@ theorem ggsw_keyswitch_decrypts_adm (N : Nat) (big128 : Bool) (rs rd rds ab ads 
                       (Ks.ι N (skOut.getD c []) * Q + Ks.ι N Q3c) := by
   have hrout' : key.rankOut + 1 = key.mat.colsOut := by unfold Ks.Key.rankOut; omega
   have hpk : (0 : Int) < 2 ^ key.base2k := by positivity
-  have hHp0 := prodBound'_nonneg key.dsize key.mat.colsIn key.mat.rows N (Hin + 2 ^ key.base2k) Dm (by linarith) hDm0
-  have hHpT0 := prodBound'_nonneg t.dsize t.rank t.dnum N (2 ^ t.base2k) Dt (by positivity) hDt0
+  have hHp0 := prodBound_nonneg key.dsize key.mat.colsIn key.mat.rows N (Hin + 2 ^ key.base2k) Dm (by linarith) hDm0
+  have hHpT0 := prodBound_nonneg t.dsize t.rank t.dnum N (2 ^ t.base2k) Dt (by positivity) hDt0
   have hrows' : ∀ r x, r < rd → aCol0[r]? = some x → KsRowOk N key.rankOut key Hin
-      (prodBound' key.dsize key.mat.colsIn key.mat.rows N (Hin + 2 ^ key.base2k) Dm) x := fun r x hr hx =>
+      (prodBound key.dsize key.mat.colsIn key.mat.rows N (Hin + 2 ^ key.base2k) Dm) x := fun r x hr hx =>
     KsRowOk_of_adm N key.rankOut key Hin Dm x hrout' hD hbk1 hbk hIn0 hIn hDm0 hm (hrows r x hr hx)
   exact ggsw_keyswitch_decrypts N big128 rs rd rds ab ads aCol0 key t cells sIn skOut EL KL ET Hin _ _ hN hrout hc0 hD hMk hSk hbk1 hbk hs
     hEL hKL hkey hd hn hS hrank hMt hb1 hb hkeyT hcov1 hcov2 hIn0 hIn hHp0 hadm hHpT0 hadmT hrows'
@@ -432,10 +432,10 @@ theorem ggsw_automorphism_decrypts_adm (N : Nat) (big128 : Bool) (rs rd rds ab a
                       (Ks.ι N (sk.getD c []) * Q + Ks.ι N Q3c) := by
   have hrout' : key.rankOut + 1 = key.mat.colsOut := by unfold Ks.Key.rankOut; omega
   have hpk : (0 : Int) < 2 ^ key.base2k := by positivity
-  have hHp0 := prodBound'_nonneg key.dsize key.mat.colsIn key.mat.rows N (Hin + 2 ^ key.base2k) Dm (by linarith) hDm0
-  have hHpT0 := prodBound'_nonneg t.dsize t.rank t.dnum N (2 ^ t.base2k) Dt (by positivity) hDt0
+  have hHp0 := prodBound_nonneg key.dsize key.mat.colsIn key.mat.rows N (Hin + 2 ^ key.base2k) Dm (by linarith) hDm0
+  have hHpT0 := prodBound_nonneg t.dsize t.rank t.dnum N (2 ^ t.base2k) Dt (by positivity) hDt0
   have hrows' : ∀ r x, r < rd → aCol0[r]? = some x → KsRowOk N key.rankOut key Hin
-      (prodBound' key.dsize key.mat.colsIn key.mat.rows N (Hin + 2 ^ key.base2k) Dm) x := fun r x hr hx =>
+      (prodBound key.dsize key.mat.colsIn key.mat.rows N (Hin + 2 ^ key.base2k) Dm) x := fun r x hr hx =>
     KsRowOk_of_adm N key.rankOut key Hin Dm x hrout' hD hbk1 hbk hIn0 hIn hDm0 hm (hrows r x hr hx)
   exact ggsw_automorphism_decrypts N big128 rs rd rds ab ads aCol0 key t cells sk gInv EL KL ET Hin _ _ hN hg hskl hinv hrout hc0 hD hMk hSk
     hbk1 hbk hs hEL hKL hkey hd hn hS hrank hMt hb1 hb hkeyT hcov1 hcov2 hIn0 hIn hHp0 hadm hHpT0 hadmT hrows'
@@ -492,10 +492,10 @@ theorem ggsw_keyswitch_assign_decrypts_adm (N : Nat) (big128 : Bool) (x0 : Ks.Ct
                   + (2 : Ks.R N) ^ (t.base2k * x0.size + key.base2k * key.mat.size + t.base2k * x0.size + t.base2k * t.size) *
                       (Ks.ι N (skOut.getD c []) * Q + Ks.ι N Q3c) := by
   have hpk : (0 : Int) < 2 ^ key.base2k := by positivity
-  have hHp0 := prodBound'_nonneg key.dsize key.mat.colsIn key.mat.rows N (Hin + 2 ^ key.base2k) Dm (by linarith) hDm0
-  have hHpT0 := prodBound'_nonneg t.dsize t.rank t.dnum N (2 ^ t.base2k) Dt (by positivity) hDt0
+  have hHp0 := prodBound_nonneg key.dsize key.mat.colsIn key.mat.rows N (Hin + 2 ^ key.base2k) Dm (by linarith) hDm0
+  have hHpT0 := prodBound_nonneg t.dsize t.rank t.dnum N (2 ^ t.base2k) Dt (by positivity) hDt0
   have hrows' : ∀ (r : Nat) (x : Ks.Ct), (x0 :: xs)[r]? = some x →
-      KsRowOk N x.rank key Hin (prodBound' key.dsize key.mat.colsIn key.mat.rows N (Hin + 2 ^ key.base2k) Dm) x ∧
+      KsRowOk N x.rank key Hin (prodBound key.dsize key.mat.colsIn key.mat.rows N (Hin + 2 ^ key.base2k) Dm) x ∧
         x.rank = key.rankOut ∧ x.base2k = t.base2k ∧ x.size = x0.size := fun r x hx => by
     obtain ⟨h1, h2, h3, h4⟩ := hrows r x hx
     have hrout' : x.rank + 1 = key.mat.colsOut := by rw [h2]; unfold Ks.Key.rankOut; omega
@@ -558,10 +558,10 @@ theorem ggsw_automorphism_assign_decrypts_adm (N : Nat) (big128 : Bool) (x0 : Ks
                   + (2 : Ks.R N) ^ (t.base2k * x0.size + key.base2k * key.mat.size + t.base2k * x0.size + t.base2k * t.size) *
                       (Ks.ι N (sk.getD c []) * Q + Ks.ι N Q3c) := by
   have hpk : (0 : Int) < 2 ^ key.base2k := by positivity
-  have hHp0 := prodBound'_nonneg key.dsize key.mat.colsIn key.mat.rows N (Hin + 2 ^ key.base2k) Dm (by linarith) hDm0
-  have hHpT0 := prodBound'_nonneg t.dsize t.rank t.dnum N (2 ^ t.base2k) Dt (by positivity) hDt0
+  have hHp0 := prodBound_nonneg key.dsize key.mat.colsIn key.mat.rows N (Hin + 2 ^ key.base2k) Dm (by linarith) hDm0
+  have hHpT0 := prodBound_nonneg t.dsize t.rank t.dnum N (2 ^ t.base2k) Dt (by positivity) hDt0
   have hrows' : ∀ (r : Nat) (x : Ks.Ct), (x0 :: xs)[r]? = some x →
-      KsRowOk N x.rank key Hin (prodBound' key.dsize key.mat.colsIn key.mat.rows N (Hin + 2 ^ key.base2k) Dm) x ∧
+      KsRowOk N x.rank key Hin (prodBound key.dsize key.mat.colsIn key.mat.rows N (Hin + 2 ^ key.base2k) Dm) x ∧
         x.rank = key.rankOut ∧ x.base2k = t.base2k ∧ x.size = x0.size := fun r x hx => by
     obtain ⟨h1, h2, h3, h4⟩ := hrows r x hx
     have hrout' : x.rank + 1 = key.mat.colsOut := by rw [h2]; unfold Ks.Key.rankOut; omega
@@ -627,10 +627,10 @@ theorem ggsw_keyswitch_wellformed_adm (N : Nat) (big128 : Bool) (rs rd rds ab ad
                       (((2 : Ks.R N) ^ t.base2k) ^ rs * (Ks.ι N (skOut.getD c []) * Q + Ks.ι N Q3c)) := by
   have hrout' : key.rankOut + 1 = key.mat.colsOut := by unfold Ks.Key.rankOut; omega
   have hpk : (0 : Int) < 2 ^ key.base2k := by positivity
-  have hHp0 := prodBound'_nonneg key.dsize key.mat.colsIn key.mat.rows N (Hin + 2 ^ key.base2k) Dm (by linarith) hDm0
-  have hHpT0 := prodBound'_nonneg t.dsize t.rank t.dnum N (2 ^ t.base2k) Dt (by positivity) hDt0
+  have hHp0 := prodBound_nonneg key.dsize key.mat.colsIn key.mat.rows N (Hin + 2 ^ key.base2k) Dm (by linarith) hDm0
+  have hHpT0 := prodBound_nonneg t.dsize t.rank t.dnum N (2 ^ t.base2k) Dt (by positivity) hDt0
   have hrows' : ∀ r x, r < rd → aCol0[r]? = some x → KsRowOk N key.rankOut key Hin
-      (prodBound' key.dsize key.mat.colsIn key.mat.rows N (Hin + 2 ^ key.base2k) Dm) x := fun r x hr hx =>
+      (prodBound key.dsize key.mat.colsIn key.mat.rows N (Hin + 2 ^ key.base2k) Dm) x := fun r x hr hx =>
     KsRowOk_of_adm N key.rankOut key Hin Dm x hrout' hD hbk1 hbk hIn0 hIn hDm0 hm (hrows r x hr hx)
   exact ggsw_keyswitch_wellformed N big128 rs rd rds ab ads aCol0 key t cells sIn skOut EL KL ET Hin _ _ m eIn hN hrout hc0 hD hMk hSk hbk1
     hbk hs hEL hKL hkey hd hn hS hrank hMt hb1 hb hkeyT hcov1 hcov2 hIn0 hIn hHp0 hadm hHpT0 hadmT hrows'
@@ -697,10 +697,10 @@ theorem ggsw_automorphism_wellformed_adm (N : Nat) (big128 : Bool) (rs rd rds ab
                       (((2 : Ks.R N) ^ t.base2k) ^ rs * (Ks.ι N (sk.getD c []) * Q + Ks.ι N Q3c)) := by
   have hrout' : key.rankOut + 1 = key.mat.colsOut := by unfold Ks.Key.rankOut; omega
   have hpk : (0 : Int) < 2 ^ key.base2k := by positivity
-  have hHp0 := prodBound'_nonneg key.dsize key.mat.colsIn key.mat.rows N (Hin + 2 ^ key.base2k) Dm (by linarith) hDm0
-  have hHpT0 := prodBound'_nonneg t.dsize t.rank t.dnum N (2 ^ t.base2k) Dt (by positivity) hDt0
+  have hHp0 := prodBound_nonneg key.dsize key.mat.colsIn key.mat.rows N (Hin + 2 ^ key.base2k) Dm (by linarith) hDm0
+  have hHpT0 := prodBound_nonneg t.dsize t.rank t.dnum N (2 ^ t.base2k) Dt (by positivity) hDt0
   have hrows' : ∀ r x, r < rd → aCol0[r]? = some x → KsRowOk N key.rankOut key Hin
-      (prodBound' key.dsize key.mat.colsIn key.mat.rows N (Hin + 2 ^ key.base2k) Dm) x := fun r x hr hx =>
+      (prodBound key.dsize key.mat.colsIn key.mat.rows N (Hin + 2 ^ key.base2k) Dm) x := fun r x hr hx =>
     KsRowOk_of_adm N key.rankOut key Hin Dm x hrout' hD hbk1 hbk hIn0 hIn hDm0 hm (hrows r x hr hx)
   exact ggsw_automorphism_wellformed N big128 rs rd rds ab ads aCol0 key t cells sk gInv EL KL ET Hin _ _ m eIn hN hg hskl hinv hrout hc0 hD
     hMk hSk hbk1 hbk hs hEL hKL hkey hd hn hS hrank hMt hb1 hb hkeyT hcov1 hcov2 hIn0 hIn hHp0 hadm hHpT0 hadmT hrows'
